@@ -603,7 +603,7 @@ def o_case(tname, scope, cname, stmt_t, res_t, rtype, chain, place):
     elif place == "in-block":
         code = f"    {{ {pair(e1)} }}\n    {stmt}\n    return {res};\n"
     elif place == "loop":
-        code = f"    for (int k = 0; k < 2; ++k) {{ {body} a = a + 1; }}\n    return {res};\n"
+        code = f"    for (int k = 0; k < 2; ++k) {{ {body} x = x + 1.0; }}\n    return {res};\n"
         if _declares(stmt):
             return None  # result declared inside the loop body would be out of scope
     elif place == "arms":
@@ -1612,3 +1612,138 @@ def fam_V(tier):
         for mutate in ("index", "index-dyn", "swizzle", "assign", "compound"):
             for which in ("source", "copy"):
                 yield (v_copy_case, tn, mutate, which)
+
+
+# =============================================================================================
+# T: type grids that walk the fence of the front end (C05)
+# =============================================================================================
+SPELL_TYPES = ["int", "float", "uint", "float2", "float3", "float4", "int2", "int3", "int4", "uint2", "uint3", "uint4", "float3x3", "float4x4"]
+T_EXTRA_DECLS = "struct SS { int fld; float4 vec; int[2] arr; }\n"
+T_AGG_TYPES = ["SS", "int[2]", "int[2][3]", "float[2][2][2]", "float4[2]", "SS[2]"]
+
+
+def canon_value(t, distinct=False):
+    import re
+    m = re.fullmatch(r"(int|float|uint)(\d)?(x(\d))?", t)
+    if m:
+        c = m.group(1)
+        base = (lambda k: (k + 1.5) if distinct else 2.0) if c == "float" else (lambda k: (k + 1) if distinct else 1)
+        if m.group(3):
+            n = int(m.group(2))
+            return [[base(i * n + j) for j in range(n)] for i in range(n)]
+        if m.group(2):
+            return [base(i) for i in range(int(m.group(2)))]
+        return base(0)
+    if t == "SS":
+        return {"fld": 3, "vec": [1.0, 2.0, 3.0, 4.0], "arr": [5, 6]}
+    m = re.fullmatch(r"(\w+?)((\[\d\])+)", t)
+    if m:
+        dims = [int(x) for x in re.findall(r"\[(\d)\]", m.group(2))]
+
+        def build(ds):
+            if not ds:
+                return canon_value(m.group(1), distinct)
+            return [build(ds[1:]) for _ in range(ds[0])]
+        return build(dims)
+    raise ValueError(t)
+
+
+def t_case(feat, params, body, globals_=(), rt="void", extra=""):
+    pdecl = ", ".join(f"{t} {n}" for t, n in params)
+    gdecl = "".join(f"{t} {n};\n" for t, n in globals_)
+    src = T_EXTRA_DECLS + gdecl + extra + f"export function f({pdecl}) -> {rt}\n{{\n    {body}\n}}\n"
+    inputs = []
+    for distinct in (False, True):
+        args = {n: canon_value(t, distinct) for t, n in params}
+        if "i" in args:
+            args["i"] = 1 if distinct else 0      # dynamic indices stay inside every selected dimension
+        inputs.append((args, {n: canon_value(t, distinct) for t, n in globals_}))
+    return {"fam": "T", "desc": feat, "src": src, "units": [{"funcs": [], "entry": "f", "inputs": inputs}]}
+
+
+def shape_of(t):
+    if t in ("int", "float", "uint"):
+        return "scalar"
+    if "x" in t:
+        return "matrix"
+    if t in T_AGG_TYPES:
+        return "struct" if t == "SS" else "array"
+    return "vector"
+
+
+@family("T")
+def fam_T(tier):
+    ALL = SPELL_TYPES + (T_AGG_TYPES if tier == "thorough" else ["SS", "int[2]", "int[2][3]"])
+    # binary operators over every ordered pair of spellable primitive types (aggregates only in thorough)
+    for op in BINOPS:
+        for L in SPELL_TYPES:
+            for R in SPELL_TYPES:
+                oc = "cmp" if op in CMPOPS else op
+                yield (t_case, f"binary;op={oc};{shape_of(L)},{shape_of(R)}", [(L, "a"), (R, "b")], f"a {op} b;")
+        if tier == "thorough":
+            for L in T_AGG_TYPES:
+                for R in ("int", "float4", L):
+                    yield (t_case, f"binary;op={op};aggregate", [(L, "a"), (R, "b")], f"a {op} b;")
+    # assignment / initialisation / compound assignment between every pair
+    for L in ALL:
+        for R in ALL:
+            yield (t_case, f"assign;{shape_of(L)}<-{shape_of(R)}", [(L, "a"), (R, "b")], "a = b;")
+            yield (t_case, f"init;{shape_of(L)}<-{shape_of(R)}", [(R, "b")], f"{L} v = b;")
+            if L in SPELL_TYPES and R in SPELL_TYPES:
+                for cop in ("+=", "-=", "*=", "/="):
+                    yield (t_case, f"compound{cop};{shape_of(L)}<-{shape_of(R)}", [(L, "a"), (R, "b")], f"a {cop} b;")
+            yield (t_case, f"global-assign;{shape_of(L)}<-{shape_of(R)}", [(R, "b")], "g = b;", [(L, "g")])
+            yield (t_case, f"return;{shape_of(L)}<-{shape_of(R)}", [(R, "b")], "return b;", (), L)
+    # call: argument type x parameter type
+    for P in ALL:
+        for A in ALL:
+            yield (t_case, f"call;{shape_of(P)}<-{shape_of(A)}", [(A, "a")], "g(a);", (), "void", f"function g({P} p) -> void {{ }}\n")
+    # constructors
+    kinds = {"int": "int", "float": "float", "uint": "uint", "vec2": "float2", "vec3": "int3"}
+    for T in SPELL_TYPES:
+        n = 16 if T.endswith("4x4") else 9 if T.endswith("3x3") else int(T[-1]) if T[-1].isdigit() else 1
+        maxargs = min(n, 4)
+        for k in range(1, maxargs + 1):
+            for combo in itertools.product(sorted(kinds), repeat=k):
+                params = [(kinds[c], f"q{i}") for i, c in enumerate(combo)]
+                comps = sum({"vec2": 2, "vec3": 3}.get(c, 1) for c in combo)
+                yield (t_case, f"ctor;{shape_of(T)};components={'exact' if comps == n else 'fewer' if comps < n else 'more'}", params,
+                       f"{T} v = {T}(" + ", ".join(f"q{i}" for i in range(k)) + ");")
+    for T in ("float3x3", "float4x4"):
+        n = int(T[-1])
+        for rowt in (f"float{n}", f"int{n}", "float2"):
+            yield (t_case, f"ctor;matrix-from-rows;{rowt}", [(rowt, f"r{i}") for i in range(n)], f"{T} v = {T}(" + ", ".join(f"r{i}" for i in range(n)) + ");")
+    # element selection on every type
+    for T in ALL + (["float4[2]", "SS[2]"] if tier == "quick" else []):
+        for sel, nm in ((".x", "swizzle1"), (".xy", "swizzle2"), (".fld", "member"), (".vec", "member-vec"), (".vec.zy", "member-swizzle"), (".arr[1]", "member-index"),
+                        ("[0]", "index"), ("[i]", "index-dyn"), ("[0][0]", "index2"), ("[i][0]", "index2-dyn"), ("[0].x", "index-swizzle"), ("[1].fld", "index-member"),
+                        ("[0][1][1]", "index3")):
+            yield (t_case, f"select-read;{nm};{shape_of(T)}", [(T, "a"), ("int", "i")], f"a{sel};")
+            yield (t_case, f"select-write;{nm};{shape_of(T)}", [(T, "a"), ("int", "i")], f"a{sel} = 1;")
+            yield (t_case, f"select-write-float;{nm};{shape_of(T)}", [(T, "a"), ("int", "i")], f"a{sel} = 1.5;")
+            yield (t_case, f"select-copy;{nm};{shape_of(T)}", [(T, "a"), (T, "b"), ("int", "i")], f"a{sel} = b{sel};")
+        for aff in ("++a;", "a++;", "--a;", "a--;"):
+            yield (t_case, f"affix;{shape_of(T)}", [(T, "a")], aff)
+        yield (t_case, f"affix-global;{shape_of(T)}", [], "++g;", [(T, "g")])
+        # statements with a condition of every type (loops are guarded so they end)
+        yield (t_case, f"cond-if;{shape_of(T)}", [(T, "a")], "int r = 0; if (a) { r = 1; } else { r = 2; }")
+        yield (t_case, f"cond-while;{shape_of(T)}", [(T, "a")], "int n = 0; while (a) { n = n + 1; if (n > 1) { break; } }")
+        yield (t_case, f"cond-for;{shape_of(T)}", [(T, "a")], "for (int n = 0; a; ++n) { if (n > 1) { break; } }")
+        yield (t_case, f"cond-do;{shape_of(T)}", [(T, "a")], "int n = 0; do { n = n + 1; if (n > 1) { break; } } while (a)")
+        # declarations of every type in every role
+        yield (t_case, f"decl-local;{shape_of(T)}", [], f"{T} v; {T} w = v;")
+        yield (t_case, f"decl-local-in-loop;{shape_of(T)}", [], f"for (int n = 0; n < 2; ++n) {{ {T} v; }}")
+        yield (t_case, f"decl-global-read;{shape_of(T)}", [], f"{T} v = g;", [(T, "g")])
+        yield (t_case, f"decl-param-return;{shape_of(T)}", [(T, "a")], "return a;", (), T)
+        yield (t_case, f"index-with;{shape_of(T)}", [(T, "a"), ("int[2]", "arr")], "arr[a];")
+    # assignment used as a value, chained forms
+    for T in ("int", "float", "float4"):
+        yield (t_case, f"assign-as-value;{shape_of(T)}", [(T, "a"), (T, "b")], "a = b = a;")
+        yield (t_case, f"assign-as-operand;{shape_of(T)}", [(T, "a"), (T, "b")], "a = (a + b) + b;")
+        yield (t_case, f"assign-in-call;{shape_of(T)}", [(T, "a"), (T, "b")], "g(a = b);", (), "void", f"function g({T} p) -> void {{ }}\n")
+        yield (t_case, f"assign-in-cond;{shape_of(T)}", [(T, "a"), (T, "b")], "if (a = b) { }")
+        yield (t_case, f"compound-as-value;{shape_of(T)}", [(T, "a"), (T, "b")], "b = a += b;")
+    for src_body, feat in (("return;", "bare-return-in-void"), ("int r = 1;", "no-return-in-void"), ("{ } { { } }", "empty-blocks"), ("while (0) ;", "while-empty"),
+                           ("for (;;) { break; }", "for-empty-header"), ("int[3] arr; arr[2] = arr[0];", "local-array"), ("float x = 1; int i = x;", "float-to-int-init"),
+                           ("float x = 2.5; int[3] arr; arr[x] = 1;", "float-index"), ("int i = 2.0;", "int-from-float-literal"), ("uint u = 3; int i = 0 - 5; u = i;", "negative-to-uint")):
+        yield (t_case, f"misc;{feat}", [], src_body)
